@@ -84,16 +84,16 @@ fn c15_exhaustive(maxlen: usize) -> Vec<Scenario> {
 }
 
 pub fn run_c15(tier: Tier, seed: u64) -> i32 {
-    let rule = "Unit world (real PayPaymentProvider<Rpc> + simulated node): 0-4 parts in arbitrary initial states, part completions/failures (codes 202/203/204/209) interleaved at every position among the answers of the two list queries and the waitsendpay calls; exhaustive over all event sequences up to length 4 (quick) / 5 (thorough) for 1-2 pending parts. Oracle at return: Some(p) => a part is complete with preimage p; None => nothing pending or complete at that instant; Err is a violation (no RPC-level error is injected). Non-trivial: a part changed status after the first list answer and before the return; distinct by abstract trace hash.";
+    let rule = "Unit world (real PayPaymentProvider<Rpc> + simulated node): 0-4 parts in arbitrary initial states, part completions/failures (codes 202/203/204/209) interleaved at every position among the answers of the two list queries and the waitsendpay calls; exhaustive over all event sequences up to length 4 (quick) / 6 (thorough) for 1-2 pending parts. Oracle at return: Some(p) => a part is complete with preimage p; None => nothing pending or complete at that instant; Err is a violation (no RPC-level error is injected). Non-trivial: a part changed status after the first list answer and before the return; distinct by abstract trace hash.";
     let mut s = Session::new("C15", tier, seed, "exploration", rule);
     s.assume("node model: listsendpays is a snapshot at the instant it is answered; waitsendpay is held while its part is pending");
     let nontrivial: fn(&Stats) -> bool = |st| st.part_changed_during_wait > 0;
     let classes: fn(&Stats) -> Vec<String> = |st| if st.parts_completed > 0 { vec!["part_completed".into()] } else { vec![] };
     let case = world_case("C15", nontrivial, classes);
     s.regress::<Scenario, _>("world", &case);
-    s.enumerate("exhaustive-small-scope", "world", c15_exhaustive(tier.pick(4, 5)), &case);
-    s.extra.insert("exhaustive_small_scope".into(), json!(format!("1-2 pending parts x all sequences over 6 events (answer first/last RPC, first/last pending part completes/fails) up to length {} x recipient fate", tier.pick(4, 5))));
-    s.search("proptest", "world", tier.pick(1500, 8000), c15_strategy, &case);
+    s.enumerate("exhaustive-small-scope", "world", c15_exhaustive(tier.pick(4, 6)), &case);
+    s.extra.insert("exhaustive_small_scope".into(), json!(format!("1-2 pending parts x all sequences over 6 events (answer first/last RPC, first/last pending part completes/fails) up to length {} x recipient fate", tier.pick(4, 6))));
+    s.search("proptest", "world", tier.pick(1500, 40000), c15_strategy, &case);
     s.finish()
 }
 
@@ -184,6 +184,6 @@ pub fn run_c16(tier: Tier, seed: u64) -> i32 {
     let case = world_case("C16", nontrivial, classes);
     s.regress::<Scenario, _>("world", &case);
     s.enumerate("cartesian", "world", c16_cartesian(), &case);
-    s.search("proptest", "world", tier.pick(1500, 8000), c16_strategy, &case);
+    s.search("proptest", "world", tier.pick(1500, 40000), c16_strategy, &case);
     s.finish()
 }
